@@ -1861,6 +1861,16 @@ class ForAll(QuantifiedConditional):
                 self.left._unique_variables_
             )
             if not v.value._predicate_type_
+        ] + [
+            # a flattened collection ranges over several values like a variable does, its value is part of the solution
+            # (unless it is derived from the universal variable itself).
+            expression._id_
+            for expression in [self.condition] + self.condition._descendants_
+            if isinstance(expression, Flatten)
+            and not any(
+                v in self.left._unique_variables_
+                for v in expression._unique_variables_
+            )
         ]
 
     def _evaluate__(
